@@ -17,9 +17,9 @@ if [ $TESTS = 1 ]; then
   echo "baseline tests pass with $(basename $PATCH)"
 fi
 mkdir -p "$S/ev"
-TEAKRA_REPO="$S/repo" VERIF_EVIDENCE_DIR="$S/ev" /verif/check $PROP $BUDGET > "$S/out.log" 2>&1
+mkdir -p "$S/replays"
+TEAKRA_REPO="$S/repo" VERIF_EVIDENCE_DIR="$S/ev" VERIF_REPLAY_DIR="$S/replays" /verif/check $PROP $BUDGET > "$S/out.log" 2>&1
 rc=$?
 grep -E "VIOLATION|KNOWN-FINDING|NONDET|HARNESS|class=|tier=" "$S/out.log" | head -8
 if [ $rc = 1 ]; then echo "DETECTED $(basename $PATCH) by $PROP"; elif [ $rc = 0 ]; then echo "MISSED $(basename $PATCH) by $PROP"; else echo "HARNESS-ERROR rc=$rc"; tail -5 "$S/out.log"; fi
-rm -f /verif/replays/$PROP-*.plan.stderr 2>/dev/null
 exit $rc
